@@ -1141,11 +1141,11 @@ pub fn check_c20(case: &Case, h: &History, alts: &[History]) -> Vec<Violation> {
                             }
                         }
                         PromptCmd::Quit => {
-                            let exited = matches!(h.ended(), Some(Event::Exit(0)));
+                            let exited = matches!(h.ended(), Some(Event::Exit(_)));
                             if !last || !exited || s.followed {
                                 v.push(Violation::new(
                                     "C20:quit_not_exit",
-                                    format!("{:?} at the prompt of instruction #{} did not terminate the emulator with status 0", t, s.idx),
+                                    format!("{:?} at the prompt of instruction #{} did not terminate the emulator", t, s.idx),
                                 ));
                             }
                         }
